@@ -49,6 +49,21 @@ fn must<T>(r: std::io::Result<T>, what: &str, p: &Path) -> T {
     }
 }
 
+/// The procfs file an `OddKind::ProcLink` object points to (chosen by the
+/// entry's name, so that building and checking agree), if this machine has
+/// one with stable, non-empty UTF-8 content that reports size 0.
+fn proc_target(name: &[u8]) -> &'static str {
+    let k = hash_bytes(name) as usize;
+    for d in 0..gm::PROC_TARGETS.len() {
+        let t = gm::PROC_TARGETS[(k + d) % gm::PROC_TARGETS.len()];
+        let ok = std::fs::read_to_string(t).map(|c| !c.is_empty()).unwrap_or(false);
+        if ok {
+            return t;
+        }
+    }
+    "/proc/does-not-exist"
+}
+
 fn build_tree(root: &Path, t: &Tree) {
     must(std::fs::create_dir_all(root), "create", root);
     for d in &t.dirs {
@@ -81,6 +96,7 @@ fn build_tree(root: &Path, t: &Tree) {
             gm::OddKind::DanglingLink => must(std::os::unix::fs::symlink("does/not/exist", &p), "link", &p),
             gm::OddKind::LinkLoop => must(std::os::unix::fs::symlink(std::ffi::OsStr::from_bytes(&o.name), &p), "link", &p),
             gm::OddKind::LinkToFile => must(std::os::unix::fs::symlink("/etc/hostname", &p), "link", &p),
+            gm::OddKind::ProcLink => must(std::os::unix::fs::symlink(proc_target(&o.name), &p), "link", &p),
             gm::OddKind::EmptyDir => must(std::fs::create_dir(&p), "create", &p),
             gm::OddKind::IncompleteDir => {
                 must(std::fs::create_dir(&p), "create", &p);
@@ -209,6 +225,27 @@ fn check_tree(ev: &mut Ev, root: &Path, t: &Tree) -> CaseResult {
                             META_FILES[i]
                         )
                         .into());
+                    }
+                }
+                (None, got) if t.odd.iter().any(|o| o.kind == gm::OddKind::ProcLink && o.place.map(|k| t.dirs[k].name == name).unwrap_or(false) && o.name == META_FILES[i].as_bytes()) => {
+                    // the entry is a symbolic link to a kernel-generated file
+                    let target = proc_target(META_FILES[i].as_bytes());
+                    match (std::fs::read_to_string(target), got) {
+                        (Ok(want), Ok(g)) => {
+                            ev.count("metadata/read_through_link_to_procfs");
+                            if g != want {
+                                return Err(format!(
+                                    "{name:?}: read_metadata({:?}) returned {g:?}; {} is a symbolic link to {target}, which holds {want:?}",
+                                    entry(i),
+                                    META_FILES[i]
+                                )
+                                .into());
+                            }
+                        }
+                        (Ok(want), Err(e)) => {
+                            return Err(format!("{name:?}: read_metadata({:?}) failed ({e}) although {} links to {target} holding {want:?}", entry(i), META_FILES[i]).into())
+                        }
+                        (Err(_), _) => ev.count("metadata/procfs_not_available"),
                     }
                 }
                 (None, Err(_)) => ev.count("metadata/read_absent"),
